@@ -30,8 +30,15 @@ def analyse(prop, root, tier='quick', seed=0, overlay=None, quiet=True):
                          'functions': nfun, 'root': prog.root}
     mod = importlib.import_module('fimsa.props.' + prop.lower())
     mod.run(prog, rep)
-    rep.check_floors()
     new, known, stale = rep.classify()
+    try:
+        rep.check_floors()
+    except AnalysisError as e:
+        # a rule that matched fewer instances than confirmed by reading is an analysis problem -- unless concrete
+        # violations were found as well, which are reported (they are real whatever else moved)
+        if not new:
+            raise
+        rep.note(f'floor not met: {e}')
     return rep, new, known, stale
 
 
